@@ -207,7 +207,7 @@ type runCfg struct {
 }
 
 func runObligations(cfg runCfg, items []*oblResult) {
-	sem := make(chan struct{}, 5)
+	sem := make(chan struct{}, 4)
 	var wg sync.WaitGroup
 	for _, it := range items {
 		if it.preRun {
